@@ -307,9 +307,11 @@ HISTORY_CELLS = {
     'F1': '=IF(A1>0,B1,C1)', 'G1': '=AND(B1:B3)', 'H1': '=SUM(B1:B2,B3)', 'I1': '=IF(G1,"all",IF(OR(B1:B3),"some","none"))',
     'J1': '=MAX(A1:A3)&"|"&MIN(B1:B3)', 'K1': '=IF(NOT(A1>A3),A2,-A2)', 'L1': '=COUNT(A1:B3)+AVERAGE(B1:B3)',
     'M1': '=-A1+A2', 'N1': '=-(B1)%', 'O1': '=SUM(A1:A5)+COUNT(A1:A5)*1000',
+    # results that are error values depend on the inputs like any other result
+    'T1': '=IF(A1>0,A2/#REF!,A1*5)', 'U1': '=IF(A1>0,#NAME?,A2+1)', 'V1': '=T1+1', 'W1': '=IF(A1>0,1/0,#N/A)', 'X1': '=IF(ISERROR(U1),"err",U1)',
     'P1': '=A1&""', 'Q1': '=ISNUMBER(A1)', 'R1': '=ISBLANK(A9)&A9&"x"', 'S1': '=COUNT(A1:A3)',
 }
-_ALL = ['B1', 'C1', 'D1', 'E1', 'F1', 'G1', 'H1', 'I1', 'J1', 'K1', 'L1', 'M1', 'N1', 'O1', 'P1', 'Q1', 'R1', 'S1']
+_ALL = ['B1', 'C1', 'D1', 'E1', 'F1', 'G1', 'H1', 'I1', 'J1', 'K1', 'L1', 'M1', 'N1', 'O1', 'P1', 'Q1', 'R1', 'S1', 'T1', 'U1', 'V1', 'W1', 'X1']
 
 
 def _history_steps(full):
@@ -341,7 +343,7 @@ def rule_6(ctx):
     S.check_names_history(ctx, anchor, 'history with defined names',
                           'Setting an input through a defined name is equivalent to setting it through its address, and formulas that reach '
                           'the input through the name see the new value.')
-    ctx.floor(90, 'evaluations compared with a freshly compiled model / hand-computed values')
+    ctx.floor(100, 'evaluations compared with a freshly compiled model / hand-computed values')
 
 
 RULES = [
